@@ -45,14 +45,56 @@ def resolve_extremes(path: Path, value: Term) -> Tuple[Term, List[Summary], List
             mapping[("after", name, lp.node.lineno)] = s.norm
             used.append(s)
     v = subst(value, mapping)
-    # comprehension idioms
-    for t in subterms(v, lambda x: x[0] == "call" and x[1] in ("min", "max")):
+    # comprehension idioms (innermost first: a comprehension may use an extreme computed before it)
+    for _ in range(8):
+        cands = [t for t in subterms(v, lambda x: x[0] == "call" and x[1] in ("min", "max"))
+                 if not subterms(t[2], lambda x: x[0] == "call" and x[1] in ("min", "max") and x is not t)]
+        if not cands:
+            break
+        t = cands[0]
         ce = comprehension_extreme(t)
         if ce is not None:
             d, key, dom, default = ce
             term, inv = normalise_ext(d, key, dom)
             v = subst(v, {t: t_add(term, inv)})
+            continue
+        se = seeded_extreme(t)
+        if se is not None:
+            d, key, dom, seed = se
+            term, inv = normalise_ext(d, key, dom)
+            su = Summary(f"{d}([seed] + ...)", d, key, seed, dom, None, True)
+            su.norm, su.inv = t_add(term, inv), inv
+            used.append(su)
+            v = subst(v, {t: su.norm})
+            continue
+        break
     return v, used, problems
+
+
+def seeded_extreme(t: Term):
+    """``max([seed] + [f(e) for e in D])`` (either order): the list form of an accumulator that starts at ``seed``.
+    -> (direction, key, domain, seed)"""
+    if not (t[0] == "call" and t[1] in ("min", "max") and len(t[2]) == 1 and not t[3]):
+        return None
+    a = _unvar(t[2][0])
+    if a[0] != "lin" or a[2] != 0 or any(c != 1 for _, c in a[1]):
+        return None
+    parts = [_unvar(x) for x, _ in a[1]]
+    comps = [x for x in parts if x[0] == "comp" and x[1] == "list"]
+    seeds = [y for x in parts if x[0] == "list" for y in x[1]]
+    if len(comps) != 1 or len(seeds) != 1 or len(comps) + len([x for x in parts if x[0] == "list"]) != len(parts):
+        return None
+    ce = comprehension_extreme(("call", t[1], (("comp", "gen") + comps[0][2:],), ()))
+    if ce is None:
+        return None
+    d, key, dom, _ = ce
+    return d, key, dom, seeds[0]
+
+
+def _unvar(t: Term) -> Term:
+    while t[0] == "var":
+        t = t[3]
+    return t
 
 
 def duration_rule(model: Model, rep: Report):
